@@ -8,6 +8,8 @@ import (
 	"fmt"
 	"os"
 
+	rlog "github.com/smallnest/rpcx/log"
+
 	"verifharness/internal/common"
 )
 
@@ -22,6 +24,7 @@ func main() {
 	out := flag.String("out", "", "output directory")
 	replay := flag.String("replay", "", "abstract case to replay (prints observables)")
 	flag.Parse()
+	rlog.SetDummyLogger() // the library's own log lines are not observables
 	fn, ok := props[*prop]
 	if !ok {
 		fmt.Fprintln(os.Stderr, "unknown property", *prop)
